@@ -20,7 +20,7 @@ import (
 type built struct {
 	cfg      *ucfg.Config
 	desc     string
-	exactSrc string // source of the operation that delivered the value at the fault path
+	exactSrc string        // source of the operation that delivered the value at the fault path
 	uopts    []ucfg.Option // options every read of the configuration needs (resolvers serving expanded values)
 	// insideExpanded: the value that has to carry the source lies strictly
 	// inside a list or object built from expanded text
